@@ -1,6 +1,7 @@
 package rules
 
 import (
+	"os"
 	"fmt"
 	"go/types"
 	"strings"
@@ -370,7 +371,30 @@ func addrRootFields(v ssa.Value) (ssa.Value, []string) {
 	}
 }
 
-// checkToHops is R05.4 (also used by C03).
+// allocFields: the values of the fields of a freshly allocated struct on an inlined path (the last store into each field).
+func allocFields(events []Event, al *ssa.Alloc) map[string]*core.Term {
+	out := map[string]*core.Term{}
+	for _, ev := range events {
+		if ev.Kind != "store" {
+			continue
+		}
+		if st, ok := ev.Instr.(*ssa.Store); ok {
+			if fa, ok := st.Addr.(*ssa.FieldAddr); ok && fa.X == ssa.Value(al) {
+				out[core.FieldName(fa)] = ev.Val
+			}
+		}
+	}
+	return out
+}
+
+func isHopPtr(t types.Type) bool {
+	pt, ok := t.Underlying().(*types.Pointer)
+	return ok && isNamed(pt.Elem(), core.ModulePath+"/result", "TracerouteHop")
+}
+
+// checkToHops is R05.4 (also used by C03). It reads the inlined success paths of ToHops (constructors and per-hop helpers of any
+// module package opened): on a path that runs the loop body once, exactly one hop is put into the result – stored at index i or
+// appended to a slice that starts empty – and its fields are judged against the probe at that same index.
 func checkToHops(c *Ctx) {
 	R := c.R
 	f := c.P.Func("common.ToHops")
@@ -379,74 +403,169 @@ func checkToHops(c *Ctx) {
 		return
 	}
 	fn := core.FuncName(f)
+	zero := func(t *core.Term) bool {
+		return t == nil || t.Op == "zero" || t.IsConst("0") || t.IsConst("nil") || t.IsConst("false")
+	}
+	kinds := map[string]bool{}
 	n := 0
+	// the blocks of ToHops in which a hop is put into the result (directly, or after a helper produced it)
+	var targets []*ssa.BasicBlock
 	for _, b := range f.Blocks {
+		hit := false
 		for _, in := range b.Instrs {
-			// every store of a hop into the result slice; the hop is a literal or comes out of a straight-line constructor
-			store, ok := in.(*ssa.Store)
+			st, ok := in.(*ssa.Store)
 			if !ok {
 				continue
 			}
-			ia, ok := store.Addr.(*ssa.IndexAddr)
-			if !ok {
-				continue
+			if ia, ok := st.Addr.(*ssa.IndexAddr); ok && isHopPtr(ia.Type().Underlying().(*types.Pointer).Elem()) {
+				hit = true
 			}
-			if pt, ok := ia.Type().Underlying().(*types.Pointer); !ok || !isNamed(pt.Elem(), core.ModulePath+"/result", "TracerouteHop") {
-				continue
-			}
-			al := store.Val
-			paths, _ := core.EnumPaths(f, store.Block(), 2000)
-			for _, pa := range paths {
-				env := core.NewEnv(c.P, pa)
-				atoms := env.Atoms()
-				if !core.Feasible(atoms) {
-					continue
-				}
-				idx := env.Term(store.Addr)
-				fields, okF := hopFieldTerms(c, env, store.Val, store, 0)
-				if !okF {
-					R.Fail("R05.4", fmt.Sprintf("%s#hop[%d]", fn, n), store.Pos(), fn, "the stored hop is neither a literal nor the result of a straight-line constructor: undecided")
-					continue
-				}
-				ttl, rtt, ip, isd := fields["TTL"], fields["RTT"], fields["IPAddress"], fields["IsDest"]
-				key := fmt.Sprintf("%s#hop[%d]", fn, n)
-				// index term: hops[i]
-				if idx.Op != "index" {
-					R.Fail("R05.4", key, al.Pos(), fn, "hop is stored at "+idx.String()+", not into a slice element")
-					continue
-				}
-				i := idx.Args[1]
-				okTTL := ttl.Op == "binop" && ttl.Name == "+" && strings.Contains(ttl.String(), ".MinTTL") && ttl.Args[1].Key() == i.Key()
-				R.Check(okTTL, "R05.4", key+"/ttl", al.Pos(), fn, "hop.TTL = int(MinTTL)+i at index i", "hop.TTL = "+ttl.String()+" is not int(MinTTL)+i for the slot index "+i.String())
-				if rtt.Op == "zero" || rtt.IsConst("0") {
-					// empty hop: everything but TTL is zero
-					R.Check((ip.Op == "zero" || ip.IsConst("nil")) && (isd.Op == "zero" || isd.IsConst("false")), "R05.4", key+"/empty", al.Pos(), fn, "empty hop carries only its TTL", "empty hop carries data: ip="+ip.String()+" isDest="+isd.String())
-					continue
-				}
-				// probe = probes[i]
-				var probe *core.Term
-				rtt.Walk(func(x *core.Term) bool {
-					if x.Op == "field" && x.Name == "RTT" {
-						probe = x.Args[0]
-						return false
-					}
-					return true
-				})
-				okP := probe != nil && probe.Op == "index" && probe.Args[1].Key() == i.Key()
-				R.Check(okP, "R05.4", key+"/rtt", al.Pos(), fn, "hop.RTT derives from probes[i].RTT of the same index", "hop.RTT = "+rtt.String()+" does not derive from the probe at the slot's own index")
-				if probe != nil {
-					sameIP := ip.Has(func(x *core.Term) bool { return x.Op == "field" && x.Name == "IP" && x.Args[0].Key() == probe.Key() })
-					sameD := isd.Op == "field" && isd.Name == "IsDest" && isd.Args[0].Key() == probe.Key()
-					R.Check(sameIP && sameD, "R05.4", key+"/same-probe", al.Pos(), fn, "address, RTT and IsDest all come from the same probe", "address/IsDest come from a different value than RTT: ip="+ip.String()+" isDest="+isd.String())
-					// ms conversion: Seconds()*1000
-					okMs := rtt.Op == "binop" && rtt.Name == "*" && strings.Contains(rtt.String(), ".Seconds(") && rtt.Args[1].IsConst("1000")
-					R.Check(okMs, "R05.4", key+"/ms", al.Pos(), fn, "RTT converted with Seconds()*1000", "RTT conversion is "+rtt.String())
+			if call, ok := st.Val.(*ssa.Call); ok && isHopSlice(st.Val.Type()) {
+				if bi, ok := call.Common().Value.(*ssa.Builtin); ok && bi.Name() == "append" {
+					hit = true
 				}
 			}
-			n++
+		}
+		for _, in := range b.Instrs {
+			if call, ok := in.(*ssa.Call); ok && isHopSlice(call.Type()) {
+				if bi, ok := call.Common().Value.(*ssa.Builtin); ok && bi.Name() == "append" {
+					hit = true
+				}
+			}
+		}
+		if hit {
+			targets = append(targets, b)
 		}
 	}
-	R.Floor("R05.4:hop-literals", n, 2)
+	var ips []IPath
+	for _, tb := range targets {
+		ips = append(ips, InlinedPathsTo(c.P, f, tb, inlineOpts{pkg: core.FuncPkg(f), openAll: true, stop: hasLoop, maxDepth: 4})...)
+	}
+	for _, ip := range ips {
+		if os.Getenv("TRCHECK_DEBUG") != "" {
+			fmt.Println("PATH", ip.Desc)
+			for _, e := range ip.Events {
+				fmt.Printf("   ! %s %s %s elems=%v val=%v addr=%v\n", e.Kind, e.Target, e.Callee, e.Elems, e.Val, e.Addr)
+			}
+		}
+		type hopEv struct {
+			ev  Event
+			al  *ssa.Alloc
+			idx *core.Term // nil for append
+		}
+		var hevs []hopEv
+		undec := ""
+		for _, ev := range ip.Events {
+			switch ev.Kind {
+			case "append":
+				if len(ev.Elems) == 1 && ev.Elems[0] != nil && ev.Elems[0].Typ != nil && isHopPtr(ev.Elems[0].Typ) || len(ev.Elems) == 1 && ev.Elems[0].Op == "alloc" {
+					if al, ok := ev.Elems[0].Val.(*ssa.Alloc); ok && isHopPtr(al.Type()) {
+						hevs = append(hevs, hopEv{ev: ev, al: al})
+					} else if v, ok := ev.Instr.(ssa.Value); ok && isHopSlice(v.Type()) {
+						undec = "an appended hop is " + ev.Elems[0].String() + ", not a fresh literal or constructor result"
+					}
+				}
+			case "store":
+				st, ok := ev.Instr.(*ssa.Store)
+				if !ok {
+					continue
+				}
+				if ia, ok := st.Addr.(*ssa.IndexAddr); ok && isHopPtr(ia.Type().Underlying().(*types.Pointer).Elem()) {
+					if al, ok := ev.Val.Val.(*ssa.Alloc); ok && ev.Val.Op == "alloc" && isHopPtr(al.Type()) {
+						idx := ev.Addr
+						hevs = append(hevs, hopEv{ev: ev, al: al, idx: idx})
+					} else {
+						undec = "a stored hop is " + ev.Val.String() + ", not a fresh literal or constructor result"
+					}
+				}
+			}
+		}
+		if undec != "" {
+			R.FailPath("R05.4", fmt.Sprintf("%s#hop[?]", fn), f.Pos(), fn, undec+": undecided", ip.Desc)
+			continue
+		}
+		if len(hevs) == 0 {
+			continue // the loop body is not on this path
+		}
+		if len(hevs) > 1 {
+			R.FailPath("R05.4", fn+"#one-hop-per-probe", hevs[1].ev.Instr.Pos(), fn, "one pass through the loop body puts more than one hop into the result", ip.Desc)
+			continue
+		}
+		h := hevs[0]
+		fields := allocFields(ip.Events, h.al)
+		ttl, rtt, ipf, isd := fields["TTL"], fields["RTT"], fields["IPAddress"], fields["IsDest"]
+		kind := "answered"
+		if zero(rtt) {
+			kind = "empty"
+		}
+		kinds[kind] = true
+		key := fmt.Sprintf("%s#hop[%s]", fn, kind)
+		pos := h.ev.Instr.Pos()
+		n++
+		if ttl == nil {
+			R.FailPath("R05.4", key+"/ttl", pos, fn, "the hop's TTL is never assigned", ip.Desc)
+			continue
+		}
+		// TTL = int(MinTTL) + i
+		var i *core.Term
+		okTTL := ttl.Op == "binop" && ttl.Name == "+" && strings.Contains(ttl.Args[0].String(), ".MinTTL")
+		if okTTL {
+			i = ttl.Args[1]
+		}
+		if h.idx != nil {
+			if h.idx.Op != "index" {
+				R.FailPath("R05.4", key, pos, fn, "hop is stored at "+h.idx.String()+", not into a slice element", ip.Desc)
+				continue
+			}
+			okTTL = okTTL && h.idx.Args[1].Key() == i.Key()
+			R.Check(okTTL, "R05.4", key+"/ttl", pos, fn, "hop.TTL = int(MinTTL)+i at index i", "hop.TTL = "+ttl.String()+" is not int(MinTTL)+i for the slot index "+h.idx.String())
+		} else {
+			// appended: position = number of earlier iterations, provided the slice starts empty and every iteration appends once
+			okTTL = okTTL && i.Has(func(x *core.Term) bool { return x.Op == "loopphi" })
+			okEmpty := true
+			for _, b := range f.Blocks {
+				for _, in := range b.Instrs {
+					if mk, ok := in.(*ssa.MakeSlice); ok && isHopSlice(mk.Type()) {
+						if k, ok := mk.Len.(*ssa.Const); !ok || k.Value == nil || k.Int64() != 0 {
+							okEmpty = false
+						}
+					}
+				}
+			}
+			R.Check(okTTL && okEmpty, "R05.4", key+"/ttl", pos, fn, "hop.TTL = int(MinTTL)+i, appended in iteration i to a slice that starts empty", fmt.Sprintf("hop.TTL = %s is not int(MinTTL)+(loop index), or the appended slice does not start empty (starts empty=%v): the hop's position and its TTL disagree", ttl, okEmpty))
+		}
+		if i == nil {
+			continue
+		}
+		if kind == "empty" {
+			R.Check(zero(ipf) && zero(isd), "R05.4", key+"/empty", pos, fn, "empty hop carries only its TTL", fmt.Sprintf("empty hop carries data: ip=%v isDest=%v", ipf, isd))
+			continue
+		}
+		var probe *core.Term
+		rtt.Walk(func(x *core.Term) bool {
+			if x.Op == "field" && x.Name == "RTT" {
+				probe = x.Args[0]
+				return false
+			}
+			return true
+		})
+		okP := probe != nil && probe.Op == "index" && probe.Args[1].Key() == i.Key()
+		R.Check(okP, "R05.4", key+"/rtt", pos, fn, "hop.RTT derives from probes[i].RTT of the same index", "hop.RTT = "+rtt.String()+" does not derive from the probe at the slot's own index")
+		if probe != nil {
+			sameIP := ipf != nil && ipf.Has(func(x *core.Term) bool { return x.Op == "field" && x.Name == "IP" && x.Args[0].Key() == probe.Key() })
+			sameD := isd != nil && isd.Op == "field" && isd.Name == "IsDest" && isd.Args[0].Key() == probe.Key()
+			R.Check(sameIP && sameD, "R05.4", key+"/same-probe", pos, fn, "address, RTT and IsDest all come from the same probe", fmt.Sprintf("address/IsDest come from a different value than RTT: ip=%v isDest=%v", ipf, isd))
+			okMs := rtt.Op == "binop" && rtt.Name == "*" && strings.Contains(rtt.String(), ".Seconds(") && rtt.Args[1].IsConst("1000")
+			R.Check(okMs, "R05.4", key+"/ms", pos, fn, "RTT converted with Seconds()*1000", "RTT conversion is "+rtt.String())
+		}
+	}
+	R.Floor("R05.4:hop-literals", len(kinds), 2)
+	_ = n
+}
+
+func isHopSlice(t types.Type) bool {
+	sl, ok := t.Underlying().(*types.Slice)
+	return ok && isHopPtr(sl.Elem())
 }
 
 // hopFieldTerms evaluates the fields of a *result.TracerouteHop value at instruction `at`: a literal of the current function, or
